@@ -11,7 +11,9 @@
 // input:  one run per `--- name` section:
 //   seed <n>          schedule seed
 //   spur <permille>   probability of a spurious wake-up / time-out choice
-//   thread <call> <call> ...     calls: enq proc one ifE ifO take peek clear empty wait waitfor dqnb dqne
+//   thread <call> <call> ...     calls: enq proc one ifE ifO untE untO take peek clear empty wait waitfor dqnb dqne
+//                                (ifE / ifO: processIf declining even / odd event ids;
+//                                 untE / untO: processUntil stopping at the first even / odd event id)
 #include <eventpp/eventqueue.h>
 #include <atomic>
 #include <condition_variable>
@@ -249,7 +251,7 @@ static void runOne(const Run & r) {
 		s.ec = &q.queueEmptyCounter;
 		s.nc = &q.queueNotifyCounter;
 		q.appendListener(1, [&](long payload) {
-			// a dispatch is one model step (for processIf the predicate call is the step)
+			// a dispatch is one model step (for processIf / processUntil the predicate call is the step)
 			std::string call = tl_call;
 			if(call == "proc" || call == "one") { yieldPoint(); g->step("cb"); }
 			std::lock_guard<std::mutex> lk(s.m);
@@ -283,6 +285,16 @@ static void runOne(const Run & r) {
 								long gid; { std::lock_guard<std::mutex> lk(s.m); gid = s.gidOf[payload]; }
 								bool keep = keepOdd ? (gid % 2 == 1) : (gid % 2 == 0);
 								return !keep;
+							});
+							rets[t].push_back(res ? "true" : "false");
+						}
+						else if(c == "untE" || c == "untO") {
+							bool stopOdd = c == "untO";
+							bool res = q.processUntil([&](long payload) -> bool {
+								yieldPoint(); g->step("pred");
+								long gid; { std::lock_guard<std::mutex> lk(s.m); gid = s.gidOf[payload]; }
+								// true = stop here: this event and everything behind it go back to the queue
+								return stopOdd ? (gid % 2 == 1) : (gid % 2 == 0);
 							});
 							rets[t].push_back(res ? "true" : "false");
 						}
